@@ -704,41 +704,22 @@ func ruleDET1(c *Ctx) {
 			n++
 			k++
 			key := fmt.Sprintf("map-loop:%s#%d", f.Name, k)
-			guarded := false
-			for _, cc := range enclosingConds(p, f, nd) {
-				if !cc.then {
-					continue
-				}
-				// a disjunct !Get(Deterministic)
-				var split func(e ast.Expr) []ast.Expr
-				split = func(e ast.Expr) []ast.Expr {
-					e = ast.Unparen(e)
-					if be, ok := e.(*ast.BinaryExpr); ok && be.Op == token.LOR {
-						return append(split(be.X), split(be.Y)...)
-					}
-					return []ast.Expr{e}
-				}
-				ds := split(cc.cond)
-				hasDet := false
-				okOthers := true
-				for _, d := range ds {
-					if u, ok := d.(*ast.UnaryExpr); ok && u.Op == token.NOT {
-						if v, ok := IsFlagGet(info, u.X); ok && v&^1 == det {
-							hasDet = true
-							continue
+			guarded := detGuarded(p, f, nd, det)
+			// a private helper that only holds the loop: the limit may be at every one of its call sites
+			if !guarded && f.Decl != nil && f.Obj != nil && !ast.IsExported(f.Obj.Name()) {
+				callers := callersOf(p, f.Obj)
+				all := len(callers) > 0
+				for _, cf := range callers {
+					InspectNoLit(cf.Body(), func(x ast.Node) bool {
+						if call, ok := x.(*ast.CallExpr); ok && Callee(cf.Info(), call) == f.Obj {
+							if !detGuarded(p, cf, call, det) {
+								all = false
+							}
 						}
-					}
-					// the only other admissible disjunct: size <= 1
-					if be, ok := d.(*ast.BinaryExpr); ok && be.Op == token.LEQ {
-						if v, isC := ConstI64(info, be.Y); isC && v <= 1 {
-							continue
-						}
-					}
-					okOthers = false
+						return true
+					})
 				}
-				if hasDet && okOthers {
-					guarded = true
-				}
+				guarded = all
 			}
 			c.Oblige(key, nd.Pos(), guarded || unwrites, "a loop over a Go map writes to the encoder in iteration order without being limited to !Deterministic (or maps of at most one entry)")
 			return true
@@ -802,4 +783,47 @@ func containsNode(root ast.Node, target ast.Node) bool {
 		return !found
 	})
 	return found
+}
+
+// detGuarded reports whether node nd of function f sits under a condition with a disjunct
+// !Flags.Get(Deterministic) whose other disjuncts only admit maps of at most one entry.
+func detGuarded(p *Program, f *FuncInfo, nd ast.Node, det uint64) bool {
+	info := f.Info()
+	guarded := false
+	for _, cc := range enclosingConds(p, f, nd) {
+		if !cc.then {
+			continue
+		}
+		// a disjunct !Get(Deterministic)
+		var split func(e ast.Expr) []ast.Expr
+		split = func(e ast.Expr) []ast.Expr {
+			e = ast.Unparen(e)
+			if be, ok := e.(*ast.BinaryExpr); ok && be.Op == token.LOR {
+				return append(split(be.X), split(be.Y)...)
+			}
+			return []ast.Expr{e}
+		}
+		ds := split(cc.cond)
+		hasDet := false
+		okOthers := true
+		for _, d := range ds {
+			if u, ok := d.(*ast.UnaryExpr); ok && u.Op == token.NOT {
+				if v, ok := IsFlagGet(info, u.X); ok && v&^1 == det {
+					hasDet = true
+					continue
+				}
+			}
+			// the only other admissible disjunct: size <= 1
+			if be, ok := d.(*ast.BinaryExpr); ok && be.Op == token.LEQ {
+				if v, isC := ConstI64(info, be.Y); isC && v <= 1 {
+					continue
+				}
+			}
+			okOthers = false
+		}
+		if hasDet && okOthers {
+			guarded = true
+		}
+	}
+	return guarded
 }
